@@ -69,6 +69,7 @@ def conversion_inline(cx, v):
 
 def check(repo, rep):
     cx = Ctx(repo)
+    rep.cx = cx
     sw = SplitWiring(cx)
     fn = sw.fn
     rep.floor('returning paths of split()', len(sw.paths), 4)
